@@ -110,6 +110,107 @@ def _base_name(node):
     return tgt.id if isinstance(tgt, ast.Name) else None
 
 
+def _private_helper(prog, q):
+    info = prog.funcs.get(q)
+    return info is not None and info.parent is None and info.cls is None and info.node.name.startswith("_") \
+        and not info.node.name.startswith("__")
+
+
+def _call_sites(prog, q, pname):
+    """[(where, verdict, why)] for every call of helper ``q`` in lcm: is the object passed as ``pname`` fresh
+    (created in the caller: True), the caller's own argument / a global (False), or unclassified (None)?"""
+    info = prog.funcs[q]
+    a = info.node.args
+    names = [x.arg for x in a.posonlyargs + a.args]
+    pos = names.index(pname) if pname in names else None
+    simple = info.node.name
+    out = []
+    for cq, cinfo in sorted(prog.funcs.items()):
+        if cinfo.module.startswith(("lcmref", "lcmfix")) or cq == q:
+            continue
+        m = prog.modules[cinfo.module]
+        local_names = {simple} if cinfo.module == info.module else {loc for loc, tgt in m.imports.items() if tgt == q}
+        if not local_names:
+            continue
+        own = [n for n in ast.walk(cinfo.node)]
+        nested = {id(x) for d in own if isinstance(d, (ast.FunctionDef, ast.Lambda)) and d is not cinfo.node for x in ast.walk(d)}
+        for n in own:
+            if id(n) in nested or not (isinstance(n, ast.Call) and isinstance(n.func, ast.Name) and n.func.id in local_names):
+                continue
+            arg = None
+            if pos is not None and pos < len(n.args) and not any(isinstance(x, ast.Starred) for x in n.args[:pos + 1]):
+                arg = n.args[pos]
+            for k in n.keywords:
+                if k.arg == pname:
+                    arg = k.value
+            where = prog.node_where(cinfo.module, n)
+            if arg is None:
+                out.append((where, None, "argument not found"))
+                continue
+            fr = prog.frame(cq) if cinfo.parent is None else None
+            verdict, why = _classify_expr(prog, cq, cinfo, fr, arg, 0)
+            out.append((where, verdict, why))
+    return out
+
+
+def _classify_expr(prog, cq, cinfo, fr, arg, depth):
+    """(True: created in the caller | False: the caller's argument / a global | None: unknown, reason)."""
+    if isinstance(arg, (ast.List, ast.Dict, ast.Set, ast.ListComp, ast.DictComp, ast.SetComp, ast.Tuple)):
+        return True, "fresh object"
+    if isinstance(arg, ast.Name):
+        if fr is None:
+            return None, "call inside a nested function"
+        if arg.id in fr.params and not _rebound(cinfo.node, arg.id):
+            return False, f"{cq} passes its own argument '{arg.id}' to it: the caller's object is modified"
+        if arg.id in fr.locals or arg.id in fr.params:
+            roots = root_of(prog, fr.env.get(arg.id, ("unknown", arg.id)))
+            nonfresh = [(k, x) for k, x in roots if k in ("param", "global")]
+            unknown = [(k, x) for k, x in roots if k not in ("param", "global", "fresh")]
+            if nonfresh:
+                return False, f"{cq} passes '{arg.id}', which aliases {show(nonfresh[0][1])[:50]}"
+            return (None if unknown else True), "local object"
+        return False, f"{cq} passes the non-local '{arg.id}' to it"
+    if isinstance(arg, ast.Call) and depth < 4:
+        f = arg.func
+        name = f.id if isinstance(f, ast.Name) else None
+        if name is None:
+            return True, "result of a method / library call"
+        m = prog.modules[cinfo.module]
+        target = m.imports.get(name, f"{cinfo.module}.{name}")
+        tinfo = prog.funcs.get(target)
+        if tinfo is None or tinfo.parent is not None:
+            return True, "result of a library call"
+        ret = prog.frame(target).ret
+        if ret is None:
+            return None, f"{target} returns nothing"
+        worst = True
+        ta = tinfo.node.args
+        pnames = [x.arg for x in ta.posonlyargs + ta.args]
+        for k, x in root_of(prog, ret):
+            if k == "fresh":
+                continue
+            if k == "param" and x[1] == target and x[2] in pnames:
+                i = pnames.index(x[2])
+                sub = arg.args[i] if i < len(arg.args) else next((kw_.value for kw_ in arg.keywords if kw_.arg == x[2]), None)
+                if sub is None:
+                    return None, f"argument {x[2]} of {target} not found"
+                v, why = _classify_expr(prog, cq, cinfo, fr, sub, depth + 1)
+                if v is False:
+                    return False, why
+                if v is None:
+                    worst = None
+            elif k == "global":
+                return False, f"{target} returns the global {show(x)[:40]}"
+            else:
+                worst = None
+        return worst, f"result of {target}"
+    return None, "argument expression not classified"
+
+
+def _rebound(fnode, name):
+    return {name} if any(isinstance(n, ast.Name) and n.id == name and isinstance(n.ctx, ast.Store) for n in ast.walk(fnode)) else set()
+
+
 FIX = "lcmfix.controls"
 
 
@@ -154,6 +255,19 @@ def scan_stores(prog, frames):
                 continue
             if base in fr.params:
                 allowed = base == "self" and q.rsplit(".", 1)[-1] in ("__init__", "__post_init__")
+                if not allowed and _private_helper(prog, q):
+                    # a private helper that works in place on its argument: decided at its call sites
+                    sites = _call_sites(prog, q, base)
+                    bad_sites = [(w, why) for w, verdict, why in sites if verdict is False]
+                    if sites and not bad_sites and all(v is True for _w, v, _y in sites):
+                        continue
+                    if bad_sites:
+                        out.append((f"EFF2:param-mutated:{short}:{base}", bad_sites[0][0],
+                                    f"{q} mutates its argument '{base}' and {bad_sites[0][1]}", show(recv)[:120]))
+                        continue
+                    out.append((f"EFF2:param-mutated:{short}:{base}:undecided", where,
+                                f"{q} mutates its argument '{base}'; not every call site could be classified", None))
+                    continue
                 if not allowed:
                     out.append((f"EFF2:param-mutated:{short}:{base}", where,
                                 f"{q} mutates its argument '{base}' ({kind}{' .' + meth if meth else ''}): "
@@ -175,16 +289,17 @@ def effects(ctx: Ctx):  # noqa: C901, PLR0912
     frames = lcm_frames(prog)
     found, n = scan_stores(prog, frames)
     ctx.count("stores", n)
-    bad_total = len(found)
+    bad_total = len([k for k, *_ in found if not k.endswith(":undecided")])
+    n_undecided = len(found) - bad_total
     for key, where, detail, lhs in found:
-        ctx.ob(key, False, where, detail, lhs=lhs)
+        ctx.ob(key, None if key.endswith(":undecided") else False, where, detail, lhs=lhs)
     # positive control: the same scan must flag the fixture
     ctl, _n = scan_stores(prog, fixture_frames(prog))
     kinds = {k.split(":")[1] for k, *_ in ctl}
     if not {"param-mutated", "alias-mutated", "nonlocal-store"} <= kinds:
         ctx.undecided("EFF:positive-control", f"the store scan no longer flags the fixture violations (flagged: {sorted(kinds)})")
     ctx.count("positive_controls_flagged", len(ctl))
-    ctx.ob("EFF1:all-stores-on-fresh-locals", bad_total == 0, "",
+    ctx.ob("EFF1:all-stores-on-fresh-locals", (None if n_undecided else True) if bad_total == 0 else False, "",
            f"all {ctx.counts.get('stores', 0)} subscript/attribute stores and mutating calls in lcm act on objects that are "
            "local to the function and freshly created in it (or self in a constructor)" if bad_total == 0 else
            f"{bad_total} stores act on arguments, aliases of arguments, captured or global objects")
@@ -259,20 +374,21 @@ def effects(ctx: Ctx):  # noqa: C901, PLR0912
     dc = [s for t in frame_terms(fr) + loop_terms(prog, fr) for s in walk(t)
           if callee_name(s) == "copy.deepcopy" and s[2] == (("attr", ("param", gif, "model"), "functions"),)]
     loops = [lp for lid, lp in prog.loops.items() if lp.func == gif and "@" not in lid]
-    ok = False
+    ok = None  # None: the loop that wraps the functions was not recognised -> no verdict
     src = None
     for lp in loops:
         it = lp.iter
         if it[0] == "call" and it[1][0] == "attr" and it[1][2] == "items":
             roots = root_of(prog, it[1][1])
-            src = it[1][1]
-            if lp.next and any(v[0] == "setitem" for v in lp.next.values()):
+            if lp.next and any(x[0] == "setitem" for v in lp.next.values() for x in walk(v)):
+                src = it[1][1]
                 ok = bool(dc) and all(k == "fresh" and callee_name(x) == "copy.deepcopy" for k, x in roots)
     ctx.ob("EFF2:user-functions-deep-copied", ok, prog.where(dc[0]) if dc else prog.node_where(fr.module, prog.funcs[gif].node),
            "the internal functions are built from deepcopy(model.functions): later edits of the user's callables "
            "cannot reach the generated functions" if ok else
            "the internal functions wrap the user's own callable objects (no deepcopy): results depend on later "
-           "modifications of those objects", lhs=show(src)[:200] if src else "missing")
+           "modifications of those objects" if ok is False else
+           "the loop that wraps the user functions was not recognised", lhs=show(src)[:200] if src else "missing")
     # raw user functions are not used elsewhere at run time
     direct = []
     for name, fr2 in frames.items():
